@@ -14,12 +14,13 @@ from vlib.probes import PositionCoding, Recording
 DERIV_TOL = {"float64": 1e-9, "float32": 3e-4}
 
 
-def jd_aggregator(rng, m: int, order_sensitive_bias: int = 1) -> dict:
+def jd_aggregator(rng, m: int, order_sensitive_bias: int = 1, exclude=()) -> dict:
     """Aggregator spec admissible for m rows, expanded from a Hypothesis-drawn seed (rng).
     'poscode' = position coding (the slice each input received is directly readable from its .grad)."""
     names = ["poscode", "poscode", "Mean", "Sum", "UPGrad", "DualProj", "TrimmedMean"] + ["Constant"] * (1 + order_sensitive_bias)
     if m >= 3:
         names += ["Krum"] * order_sensitive_bias
+    names = [n for n in names if n not in exclude]
     name = names[int(rng.integers(0, len(names)))]
     spec = {"name": name}
     if name == "poscode":
